@@ -17,6 +17,7 @@
 package service
 
 import (
+	"bytes"
 	"com.tuntun.rangers/node/src/common"
 	"com.tuntun.rangers/node/src/eth_tx"
 	"com.tuntun.rangers/node/src/middleware"
@@ -502,6 +503,12 @@ func verifyETHTx(tx *types.Transaction, height uint64) error {
 	encodedTx = common.FromHex(tx.ExtraData)
 	if err := rlp.DecodeBytes(encodedTx, ethTx); err != nil {
 		txPoolLogger.Errorf("Verify eth tx rlp error!error:%v", err)
+		return ErrIllegal
+	}
+	// Hash and sender are derived from the decoded fields, so ExtraData must be
+	// the canonical encoding of those fields; otherwise it is not bound by the hash.
+	if canonicalTx, err := rlp.EncodeToBytes(ethTx); err != nil || !bytes.Equal(canonicalTx, encodedTx) {
+		txPoolLogger.Errorf("Verify eth tx error!non-canonical rlp:%s", tx.ExtraData)
 		return ErrIllegal
 	}
 
